@@ -105,6 +105,8 @@ func runC16(c *Ctx) {
 	// Go integers and floats read from the data become numbers with exactly their value (shared with C04)
 	if barms, und := c.binaryDispatch(); und == "" {
 		c04NoFloat(c, barms, "C16.numbers-enter-exactly")
+		// "typed nil pointers are ... equal to null" (shared with C05)
+		c05EqualityAs(c, barms, "C16.null-like-values-are-equal")
 	}
 }
 
